@@ -152,7 +152,7 @@ impl Check for Recursion {
         let dir = crate::engine::proc::scratch_dir("c18");
         let p = format!("{}/r.blots", dir);
         std::fs::write(&p, &src).unwrap();
-        let lim = Limits { mem_bytes: 6 << 30, stack_bytes: 8 << 20, timeout: std::time::Duration::from_secs(60) };
+        let lim = Limits { mem_bytes: 6 << 30, stack_bytes: 8 << 20, timeout: std::time::Duration::from_secs(40) };
         let r = run_proc(&ctx.cli_path, &[p.clone()], None, None, &lim);
         let _ = std::fs::remove_dir_all(&dir);
         let r = match r {
